@@ -211,7 +211,12 @@ type ptrRead struct {
 func parseModel(c *FnCtx, terms []*Term, output string) *modelCtx {
 	mc := &modelCtx{c: c, vals: map[int]*sexp{}, floats: map[string]float64{}}
 	// output: first line sat, then ((t v) (t v) ...)
-	idx := strings.Index(output, "((")
+	idx := -1
+	if strings.HasPrefix(output, "((") {
+		idx = 0
+	} else if j := strings.Index(output, "\n(("); j >= 0 {
+		idx = j + 1
+	}
 	if idx < 0 {
 		return mc
 	}
@@ -690,7 +695,7 @@ func replayReproduced(o *Obligation, res string) bool {
 	case "frame-heap", "frame-global":
 		return strings.Contains(res, "outcome=modified")
 	default:
-		return strings.Contains(res, "outcome=panic") || strings.Contains(res, "panic:")
+		return strings.Contains(res, "outcome=panic") || strings.Contains(res, "panic:") || strings.Contains(res, "fatal error:")
 	}
 }
 
@@ -744,13 +749,17 @@ func corpusFor(t types.Type, qual types.Qualifier) []string {
 		case u.Info()&types.IsFloat != 0:
 			return []string{ts + "(0)", ts + "(1.5)"}
 		}
+	case *types.Pointer:
+		if _, ok := u.Elem().Underlying().(*types.Basic); ok {
+			return []string{"new(" + types.TypeString(u.Elem(), qual) + ")"}
+		}
 	case *types.Interface:
 		if u.NumMethods() == 0 {
-			return []string{"interface{}(" + sample + ")", "interface{}(nil)", `interface{}("s")`, `interface{}([]interface{}{"p", map[string]interface{}{"k": "v"}})`, "interface{}(float64(1))", `interface{}(map[string]interface{}{"k": "v"})`, `interface{}("k:v")`, `interface{}("k:v:bool")`, `interface{}(map[string]interface{}{})`, `interface{}(3)`}
+			return []string{"interface{}(" + sample + ")", `interface{}(map[string]interface{}{"*": 1, "a": 2})`, "interface{}(nil)", `interface{}("s")`, `interface{}([]interface{}{"p", map[string]interface{}{"k": "v"}})`, "interface{}(float64(1))", `interface{}(map[string]interface{}{"k": "v"})`, `interface{}("k:v")`, `interface{}("k:v:bool")`, `interface{}(map[string]interface{}{})`, `interface{}(3)`}
 		}
 	case *types.Map:
 		if typeKey(u) == "map[string]interface{}" {
-			return []string{ts + "(" + sample + ")", ts + "(nil)", ts + "{}", ts + `{"k": "v"}`, ts + `{"": "x"}`, ts + `{"!k": "*"}`, ts + `{"a": map[string]interface{}{"k": "v"}}`}
+			return []string{ts + "(" + sample + ")", ts + `{"*": 1, "a": 2}`, ts + "(nil)", ts + "{}", ts + `{"k": "v"}`, ts + `{"": "x"}`, ts + `{"!k": "*"}`, ts + `{"a": map[string]interface{}{"k": "v"}}`}
 		}
 	case *types.Slice:
 		if isByte(u.Elem()) {
